@@ -24,6 +24,7 @@ var peopleTypes = map[string]ast.NodeType{
 	"id": ast.NodeTypeString, "sa": ast.NodeTypeString, "sb": ast.NodeTypeString,
 	"ia": ast.NodeTypeInt64, "ib": ast.NodeTypeInt64, "fa": ast.NodeTypeFloat64,
 	"ba": ast.NodeTypeBool, "ta": ast.NodeTypeDatetime,
+	"fx": ast.NodeTypeString, "bx": ast.NodeTypeBool, // function symbols (values only where a dataset copy carries them in F)
 	"roles": ast.NodeTypeString, "nums": ast.NodeTypeString,
 	"boss": ast.NodeTypeString, "home": ast.NodeTypeString, "places": ast.NodeTypeString, "peers": ast.NodeTypeString,
 }
